@@ -100,3 +100,159 @@ extern "C" void h_k1k3()
   check_all_delivered();
   VWITNESS(total == NCTX * NREC && g_ts[0][0] > g_ts[1][0]);
 }
+
+// ---- K1 alone: real populate pass over real queues filled by the real log_statement; the decoded events must carry
+// exactly the header fields that were logged (so that K3, which starts from events, composes with it)
+extern "C" void h_k1()
+{
+  bk_init_backend();
+  bw()._options.transit_events_soft_limit = SOFT; bw()._options.transit_events_hard_limit = HARD;
+  bw()._options.log_timestamp_ordering_grace_period = std::chrono::microseconds{0};
+  bk_init_sink(0);
+  bk_init_logger(0, 1); bk_init_logger(1, 1);
+  for (uint32_t c = 0; c < NCTX; c++) bk_init_context(c, 64 * c);
+  uint8_t lg[NCTX][NREC];
+  for (uint32_t c = 0; c < NCTX; c++)
+  {
+    uint32_t want = c == 0 ? CNT0 : c == 1 ? CNT1 : CNT2;
+    for (uint32_t r = 0; r < NREC; r++)
+      if (r < want)
+      {
+        uint64_t ts = vnd_u64();
+        lg[c][r] = static_cast<uint8_t>(vnd_range(0, 1));
+        bool ok = bk_log(c, lg[c][r], ts);
+        VASSERT(ok);
+        g_ts[c][g_cnt[c]++] = ts;
+      }
+  }
+  size_t cached = bw()._populate_transit_events_from_frontend_queues();
+  uint32_t total = 0;
+  for (uint32_t c = 0; c < NCTX; c++)
+  {
+    uint32_t exp = g_cnt[c] < HARD ? g_cnt[c] : HARD;      // the hard limit stops the read of one queue
+    total += exp;
+    VASSERT(teb_at(c)->size() == exp);
+    VASSERT(queue_at(c)->_reader_pos == 64 * c + 32 * exp);                           // finish_read for exactly the decoded records
+    VASSERT((queue_at(c)->empty()) == (exp == g_cnt[c]));
+    for (uint32_t r = 0; r < NREC; r++)
+      if (r < exp)
+      {
+        TransitEvent* te = &teb_at(c)->_storage[(teb_at(c)->_reader_pos + r) & teb_at(c)->_mask];
+        VASSERT(te->timestamp == g_ts[c][r]);                                          // in thread order, each once
+        VASSERT(te->macro_metadata == &MD_LOG);
+        VASSERT(te->logger_base == logger_at(lg[c][r]));
+        VASSERT(te->dynamic_log_level == LogLevel::None);
+        VASSERT(te->flush_flag == nullptr);
+      }
+  }
+  VASSERT(cached == total);
+  VWITNESS(total >= 3);
+}
+
+// ---- K3 alone: events sit in the transit buffers (any timestamps); real minimum-timestamp dispatch to the sinks
+extern "C" void h_k3()
+{
+  bk_init_backend();
+  bk_init_sink(0); bk_init_sink(1);
+  bk_init_logger(0, 2); bk_init_logger(1, 1);          // logger 0 -> sinks {0,1}; logger 1 -> sink {0}
+  for (uint32_t c = 0; c < NCTX; c++) bk_init_context(c, 64 * c);
+  uint8_t lg[NCTX][NREC]; uint32_t total = 0;
+  for (uint32_t c = 0; c < NCTX; c++)
+  {
+    uint32_t want = c == 0 ? CNT0 : c == 1 ? CNT1 : CNT2;
+    uint64_t last = 0;
+    for (uint32_t r = 0; r < NREC; r++)
+      if (r < want)
+      {
+        TransitEvent* te = teb_at(c)->back();
+        uint64_t ts = vnd_range(1, 1000); VASSUME(ts > last); last = ts;     // per-thread increasing (thread order)
+        lg[c][r] = static_cast<uint8_t>(vnd_range(0, 1));
+        te->timestamp = ts; te->macro_metadata = &MD_LOG; te->logger_base = logger_at(lg[c][r]);
+        teb_at(c)->push_back();
+        g_ts[c][g_cnt[c]++] = ts; total++;
+      }
+  }
+  // distinct stamps identify statements
+  for (uint32_t a = 0; a < NREC; a++) for (uint32_t b = 0; b < NREC; b++) if (a < g_cnt[0] && b < g_cnt[1]) VASSUME(g_ts[0][a] != g_ts[1][b]);
+  for (uint32_t i = 0; i < NCTX * NREC + 1; i++)
+  {
+    uint32_t before = g_nev;
+    bool more = bw()._process_lowest_timestamp_transit_event();
+    if (!more) { VASSERT(g_nev == before); break; }
+    // exactly ONE statement was dispatched: the global minimum; written once to every sink of ITS logger
+    VASSERT(g_nev > before);
+    uint64_t ts = g_ev[before].ts;
+    for (uint32_t c = 0; c < NCTX; c++)
+      for (uint32_t r = 0; r < NREC; r++)
+        if (r < g_cnt[c] && count_writes(0, g_ts[c][r]) == 0) VASSERT(g_ts[c][r] >= ts);   // nothing smaller is still pending
+  }
+  for (uint32_t c = 0; c < NCTX; c++) VASSERT(teb_at(c)->empty());
+  for (uint32_t c = 0; c < NCTX; c++)
+    for (uint32_t r = 0; r < NREC; r++)
+      if (r < g_cnt[c])
+      {
+        VASSERT(count_writes(0, g_ts[c][r]) == 1);                                      // sink 0 belongs to both loggers
+        VASSERT(count_writes(1, g_ts[c][r]) == (lg[c][r] == 0 ? 1u : 0u));              // sink 1 only to logger 0
+      }
+  uint32_t writes = 0; for (uint32_t i = 0; i < NEV; i++) if (i < g_nev && g_ev[i].kind == 0) writes++;
+  uint32_t expw = 0; for (uint32_t c = 0; c < NCTX; c++) for (uint32_t r = 0; r < NREC; r++) if (r < g_cnt[c]) expw += (lg[c][r] == 0 ? 2 : 1);
+  VASSERT(writes == expw);
+  for (uint32_t s = 0; s < 2; s++)
+  {
+    uint64_t last = 0;
+    for (uint32_t i = 0; i < NEV; i++) if (i < g_nev && g_ev[i].kind == 0 && g_ev[i].sink == s) { VASSERT(g_ev[i].ts >= last); last = g_ev[i].ts; }
+  }
+  VWITNESS(total == 4 && g_ts[0][0] > g_ts[1][1]);
+}
+
+// ---- K1 on ONE record with everything else symbolic: timestamp, backend clock, grace period, clock source, event kind.
+// C05 hold-back kernel: a System/Tsc-clock statement newer than (now - grace) is left in the queue, completely unconsumed;
+// a User-clock statement, or grace == 0, is never held back.  C06: a Flush request carries its flag pointer intact.
+extern "C" int64_t vll_now_value; extern "C" int vll_now_set;
+extern "C" void h_k1_one()
+{
+  bk_init_backend();
+  bw()._options.transit_events_soft_limit = 4; bw()._options.transit_events_hard_limit = 8;
+  uint64_t grace_us = vnd_range(0, 1000000);
+  uint64_t now_ns = vnd_range(2000000000ull, 4000000000000000000ull);
+  bw()._options.log_timestamp_ordering_grace_period = std::chrono::microseconds{static_cast<int64_t>(grace_us)};
+  vll_now_value = static_cast<int64_t>(now_ns); vll_now_set = 1;      // what system_clock::now() returns to the backend
+  bk_init_sink(0);
+  bool user_clock = vnd_bool();
+  bk_init_logger(0, 1, user_clock ? ClockSourceType::User : ClockSourceType::System);
+  bk_init_context(0, 64);
+  uint64_t ts = vnd_u64();
+  bool is_flush = vnd_bool();
+  static std::atomic<bool> flag{false};
+  LoggerBase::thread_context = ctx_at(0);
+  bool ok;
+  if (!user_clock) { vll_now_value = static_cast<int64_t>(ts); }        // System clock: log_statement reads the clock itself
+  g_clk.t = ts;
+  if (is_flush) ok = logger_at(0)->log_statement<false, false>(LogLevel::None, &MD_FLUSH, reinterpret_cast<uintptr_t>(&flag));
+  else ok = logger_at(0)->log_statement<false, false>(LogLevel::None, &MD_LOG);
+  VASSERT(ok);
+  vll_now_value = static_cast<int64_t>(now_ns);
+  size_t rec = is_flush ? 40 : 32;
+  VASSERT(queue_at(0)->_writer_pos == 64 + rec);
+  size_t cached = bw()._populate_transit_events_from_frontend_queues();
+  uint64_t ts_now = now_ns - grace_us * 1000;
+  bool held = !user_clock && grace_us != 0 && ts > ts_now;
+  if (held)
+  {
+    // nothing consumed: the record (and everything behind it) stays queued
+    VASSERT(cached == 0); VASSERT(teb_at(0)->empty());
+    VASSERT(queue_at(0)->_reader_pos == 64); VASSERT(!queue_at(0)->empty());
+  }
+  else
+  {
+    VASSERT(cached == 1); VASSERT(teb_at(0)->size() == 1);
+    VASSERT(queue_at(0)->_reader_pos == 64 + rec); VASSERT(queue_at(0)->empty());
+    TransitEvent* te = teb_at(0)->front();
+    VASSERT(te->timestamp == ts);
+    VASSERT(te->macro_metadata == (is_flush ? &MD_FLUSH : &MD_LOG));
+    VASSERT(te->logger_base == logger_at(0));
+    VASSERT(te->flush_flag == (is_flush ? &flag : nullptr));
+    VASSERT(te->dynamic_log_level == LogLevel::None);
+  }
+  VWITNESS(held && is_flush);
+}
